@@ -103,7 +103,7 @@ fn banks_of(inv: &Inv, ev: &Ev, rng: &mut Rng) -> Banks {
         banks.extend(event::pad_banks(inv, &ev.pads, cs));
     } else {
         // per-packet header metadata and chunk sequence numbers differ from packet to packet: none of it may matter
-        banks.extend(event::pad_banks_varied(inv, &ev.pads, cs, rng));
+        banks.extend(event::pad_banks_varied(inv, &ev.pads, cs, rng, None));
     }
     banks.push(event::trg_bank(ev.ts));
     // foreign banks that must be recognised and ignored
